@@ -494,17 +494,25 @@ theorem runPassDir_idx (p : PassT) (hp : PassOK NoID p) (c : Ctx) (fuel : Nat) (
           · exact runPass_idx p hp (c.withSeg (c.seg.reverseSlots (isMark c c.seg))) fuel (reverse_idx h _) e
           · exact runPass_idx p hp c fuel h e
 
+/-- a glyph change keeps the index permutation -/
+theorem idx_setGlyph {s : Seg} (h : IdxPerm s) (gadv : Array Int) (i g : Nat) : IdxPerm (s.upd i fun sl => sl.setGlyph gadv g) := by
+  obtain ⟨l, hl, hc, hal, hperm⟩ := h
+  have ss := StreamSame.upd s i (fun sl => sl.setGlyph gadv g) (fun _ => ⟨rfl, rfl, rfl, rfl⟩)
+  refine ⟨l, hl.same ss, hc.same ss, hal.same ss, ?_⟩
+  have e1 : (l.map fun j => ((s.upd i fun sl => sl.setGlyph gadv g).get j).index) = l.map fun j => (s.get j).index :=
+    map_congr_mem (fun j _ => by rw [get_upd]; split <;> rfl)
+  rw [e1]; exact hperm
+
+theorem bidiStep_idx {c : Ctx} (h : IdxPerm c.seg) (aMirror : Nat) : IdxPerm (bidiStep c aMirror).seg :=
+  bidiStep_ind IdxPerm aMirror (fun s mark hs => reverse_idx hs mark) (fun gadv s i g hs => idx_setGlyph hs gadv i g) c h
+
 /-- **a call of `Silf::runGraphite` whose passes neither insert nor delete keeps the index permutation** -/
 theorem runPhase_idx (passes : Array PassT) (bPass : Nat) (c : Ctx) (lo hi : Nat) (dobidi : Bool) (fuel : Nat)
-    (hpo : ∀ k, k < hi - lo → PassOK NoID (passes.getD (lo + k) default)) (h : IdxPerm c.seg)
-    {c' : Ctx} (e : runPhase passes bPass c lo hi dobidi fuel = .ok (some c')) : IdxPerm c'.seg := by
-  refine runPhase_ind (fun x => IdxPerm x.seg) passes bPass lo hi dobidi fuel
+    (hpo : ∀ k, k < hi - lo → PassOK NoID (passes.getD (lo + k) default)) (h : IdxPerm c.seg) {aMirror : Nat}
+    {c' : Ctx} (e : runPhase passes bPass c lo hi dobidi fuel aMirror = .ok (some c')) : IdxPerm c'.seg :=
+  runPhase_ind (fun x => IdxPerm x.seg) passes bPass lo hi dobidi fuel aMirror
     (fun ar k h1k h2k c1 c2 h1 e1 => runPassDir_idx _ (by have := hpo (k - lo) (by omega); rw [show lo + (k - lo) = k by omega] at this; exact this) c1 fuel ar h1 e1)
-    (fun x l hx => hx) (fun x hx => ?_) c h e
-  unfold bidiStep
-  split
-  · exact reverse_idx hx _
-  · exact hx
+    (fun x l hx => hx) (fun x hx => bidiStep_idx hx aMirror) c h e
 
 /-! ## `associateChars` numbers the stream, and the pipeline -/
 
@@ -587,7 +595,7 @@ theorem shape_index_perm (font : Font) (text : List Nat) (fuel : Nat) (dir : Nat
     · cases e
     · cases e
     · rename_i c1 h1
-      have w1 : WF c1.seg := runPhase_spec _ _ _ _ _ _ _ (initSeg_wf font text dir) h1
+      have w1 : WF c1.seg := runPhase_spec _ _ _ _ _ _ _ (startMirror_wf font (initSeg_wf font text dir)) h1
       split at e
       · cases e
       · rename_i seg' ci' hre
